@@ -32,22 +32,32 @@ func VerifRun_C09c() {
 	var use []byte
 	g := verifByteIn("g", "xy")
 	class := ""
-	defs := 0
+	type drec struct{ s, l int }
+	var recs []drec
 	for i := 0; i < nf; i++ {
 		files[i] = root + "/" + string([]byte{'a' + byte(i)}) + ".lua"
 		var src []byte
 		if i < nf-1 {
 			// a definition of a global; the nesting of the definition is symbolic (top level or inside a do block)
-			n := verifByteIn("n"+string([]byte{'0' + byte(i)}), "xy")
+			n := g // SAMENAME=1: every defining file defines the global that is read (duplicate definitions only)
+			if verifParam("SAMENAME") != 1 {
+				n = verifByteIn("n"+string([]byte{'0' + byte(i)}), "xy")
+			}
+			r := drec{0, 1}
 			if verifBool("nested") {
 				src = []byte("do\n ? = 1\nend\nlocal u = 1\n")
 				src[4] = n
+				r = drec{1, 2}
 			} else {
 				src = []byte("? = 1\nlocal u = 1\n")
 				src[0] = n
 			}
+			if verifBool("lower") { // the definition one line further down
+				src = append([]byte("\n"), src...)
+				r.l++
+			}
 			if n == g {
-				defs++
+				recs = append(recs, r)
 			}
 		} else {
 			src = []byte("q = ?\n")
@@ -56,19 +66,32 @@ func VerifRun_C09c() {
 		}
 		verifVFSPut(files[i], src)
 	}
-	if defs > 1 {
-		class = "C09-global-multi-def" // several files define the global: which one wins is a known order-dependent choice
+	// several files define the global: the merge rule keeps a later record only if it beats (at most as deep,
+	// strictly earlier line) all earlier ones, so the winner is order-dependent exactly when two of the
+	// records are incomparable (neither beats the other) - the known defect. Comparable records must give
+	// the same winner in every order.
+	for i := range recs {
+		for j := i + 1; j < len(recs); j++ {
+			ij := recs[i].s <= recs[j].s && recs[i].l < recs[j].l
+			ji := recs[j].s <= recs[i].s && recs[j].l < recs[i].l
+			if !ij && !ji {
+				class = "C09-global-multi-def"
+			}
+		}
 	}
 	p1 := CreateAllProject(files, nil, nil)
 	p1.HandleCheck()
 	d1 := c09digest(p1, files, use)
 	verifSched(false)
+	verifMapOrder(false)
 	p2 := CreateAllProject(files, nil, nil)
 	p2.HandleCheck()
 	d2 := c09digest(p2, files, use)
-	verifObserve("digest", d2)
+	if class == "" {
+		verifObserve("digest", d2) // natively the orders are whatever the runtime picks: only order-independent outcomes can be compared
+	}
 	verifReach("compared")
 	if d1 != d2 {
-		verifViolation(class, "diagnostics or a definition answer depend on the arrival order of worker results")
+		verifViolation(class, "diagnostics or a definition answer depend on the arrival order of worker results or on map iteration order")
 	}
 }
